@@ -108,6 +108,9 @@ func (c09) Gen(rng *rand.Rand, tier string, k int) *Case {
 		c.Calls = append(c.Calls, cs)
 	}
 	c.Mode = []string{"sequential", "concurrent", "concurrent"}[rng.Intn(3)]
+	if rng.Intn(4) == 0 {
+		c.Variant = 1 + rng.Intn(2) // non-period parameters (smoothing, percentage, multiplier...) off their defaults
+	}
 	return c
 }
 
@@ -148,6 +151,11 @@ func (c09) Shrinks(c *Case) []*Case {
 		d.Mode = "sequential"
 		out = append(out, &d)
 	}
+	if c.Variant != 0 {
+		d := *c
+		d.Variant = 0
+		out = append(out, &d)
+	}
 	return out
 }
 
@@ -163,7 +171,7 @@ func (c09) Run(c *Case, st *Stats) []Violation {
 	if c.Family == "strat" {
 		entity = specName(c.spec())
 	}
-	desc := fmt.Sprintf("%s cfg=%v scale=%d mode=%s calls=%v cap=%d policy=%s: ", entity, c.Cfg, c.Scale, c.Mode, c.Calls, c.Cap, c.Policy.Name)
+	desc := fmt.Sprintf("%s cfg=%v scale=%d variant=%d mode=%s calls=%v cap=%d policy=%s: ", entity, c.Cfg, c.Scale, c.Variant, c.Mode, c.Calls, c.Cap, c.Policy.Name)
 	var simOut *SimOut
 	add := func(kind, detail string) {
 		vs = append(vs, Violation{Prop: "C09", Entity: entity, Kind: kind, Regime: c.Mode, Detail: desc + detail, Decisions: simOut.Decisions})
@@ -173,7 +181,7 @@ func (c09) Run(c *Case, st *Stats) []Violation {
 	switch c.Family {
 	case "ind":
 		e := indByName[c.Entity]
-		shared := makeInd(e, c.Cfg, c.Scale)
+		shared := makeIndV(e, c.Cfg, c.Scale, c.Variant)
 		res := make([]*PipeResult[F], len(c.Calls))
 		inputs := make([][][]F, len(c.Calls))
 		for k, cs := range c.Calls {
@@ -199,7 +207,7 @@ func (c09) Run(c *Case, st *Stats) []Violation {
 		for k := range c.Calls {
 			if ok, kind, detail := termination(simOut, res[k].Closed, res[k].ProdDone, res[k].Built); !ok {
 				// a run that does not terminate with a fresh instance either is C03's business
-				fresh := runPipe(PipeOpts{SimOpts: SimOpts{Policy: simrt.PolicySpec{Name: "fifo"}}}, inputs[k], makeInd(e, c.Cfg, c.Scale).Build())
+				fresh := runPipe(PipeOpts{SimOpts: SimOpts{Policy: simrt.PolicySpec{Name: "fifo"}}}, inputs[k], makeIndV(e, c.Cfg, c.Scale, c.Variant).Build())
 				st.noteSim(&fresh.SimOut)
 				if okf, _, _ := termination(&fresh.SimOut, fresh.Closed, fresh.ProdDone, fresh.Built); okf {
 					add(kind+"-on-shared-instance", fmt.Sprintf("call %d: %s (a fresh instance terminates)", k, detail))
@@ -210,7 +218,7 @@ func (c09) Run(c *Case, st *Stats) []Violation {
 			}
 		}
 		for k := range c.Calls {
-			fresh := runPipe(PipeOpts{SimOpts: SimOpts{Policy: simrt.PolicySpec{Name: "fifo"}}}, inputs[k], makeInd(e, c.Cfg, c.Scale).Build())
+			fresh := runPipe(PipeOpts{SimOpts: SimOpts{Policy: simrt.PolicySpec{Name: "fifo"}}}, inputs[k], makeIndV(e, c.Cfg, c.Scale, c.Variant).Build())
 			st.noteSim(&fresh.SimOut)
 			if okf, _, _ := termination(&fresh.SimOut, fresh.Closed, fresh.ProdDone, fresh.Built); !okf {
 				continue
@@ -222,7 +230,7 @@ func (c09) Run(c *Case, st *Stats) []Violation {
 			st.Probes["calls-compared-with-fresh-instance"]++
 		}
 	case "strat":
-		shared := buildStrategy(c.spec())
+		shared := buildStrategyV(c.spec(), c.Variant)
 		res := make([]*PipeResult[strategy.Action], len(c.Calls))
 		html := make([]*bytes.Buffer, len(c.Calls))
 		rendered := make([]bool, len(c.Calls))
@@ -271,7 +279,7 @@ func (c09) Run(c *Case, st *Stats) []Violation {
 			if cs.Report {
 				var fbuf bytes.Buffer
 				fdone := false
-				fo := simulate(SimOpts{Policy: simrt.PolicySpec{Name: "fifo"}}, func(s *simrt.Sim) { report(buildStrategy(c.spec()), k, &fbuf, &fdone) })
+				fo := simulate(SimOpts{Policy: simrt.PolicySpec{Name: "fifo"}}, func(s *simrt.Sim) { report(buildStrategyV(c.spec(), c.Variant), k, &fbuf, &fdone) })
 				st.noteSim(fo)
 				if !fdone {
 					st.Skipped["not-evaluated:fresh-instance-does-not-terminate(C03)"]++
@@ -290,7 +298,7 @@ func (c09) Run(c *Case, st *Stats) []Violation {
 			}
 			fresh := runPipe(PipeOpts{SimOpts: SimOpts{Policy: simrt.PolicySpec{Name: "fifo"}}}, [][]*asset.Snapshot{series[k]},
 				func(in []<-chan *asset.Snapshot) []<-chan strategy.Action {
-					return []<-chan strategy.Action{buildStrategy(c.spec()).Compute(in[0])}
+					return []<-chan strategy.Action{buildStrategyV(c.spec(), c.Variant).Compute(in[0])}
 				})
 			st.noteSim(&fresh.SimOut)
 			okf, _, _ := termination(&fresh.SimOut, fresh.Closed, fresh.ProdDone, fresh.Built)
